@@ -574,7 +574,7 @@ func ruleC05ConstNull(c *Ctx) {
 	raw := ok && jf.Depth == 0 && isNamed(jf.Type, "encoding/json", "RawMessage")
 	c.R.Check(raw, rule, "wrapper:const-is-raw", "", "\"const\" is captured as raw bytes by the unmarshal wrapper", "\"const\" is decoded directly into *any: encoding/json sets the pointer to nil for `null`, so {\"const\": null} would lose its constraint")
 	found := false
-	for _, fn := range core.WithAnon(unm) {
+	for _, fn := range c.familyFuncs(unm) {
 		fi := core.Info(fn)
 		core.EachInstr(fn, func(i ssa.Instruction) {
 			st, ok := i.(*ssa.Store)
